@@ -172,10 +172,22 @@ class Intervals:
                 ent = out.setdefault(kx, [None, None, []])
                 if o == 'Ne' and y[0] == 'const' and isinstance(y[2], int):
                     ent[2].append(y[2])
+                def cval(bnd):
+                    return bnd[0][2] + ((-1 if bnd[1] else 0) if bnd is not None else 0) if bnd[0][0] == 'const' and isinstance(bnd[0][2], int) else None
                 if o in ('Lt', 'Le', 'Eq'):
-                    ent[1] = (y, o == 'Lt', s) if ent[1] is None else ent[1]
+                    new = (y, o == 'Lt', s)
+                    if ent[1] is None:
+                        ent[1] = new
+                    elif y[0] == 'const' and isinstance(y[2], int) and ent[1][0][0] == 'const' and isinstance(ent[1][0][2], int):
+                        if y[2] - (1 if o == 'Lt' else 0) < ent[1][0][2] - (1 if ent[1][1] else 0):
+                            ent[1] = new
                 if o in ('Gt', 'Ge', 'Eq'):
-                    ent[0] = (y, o == 'Gt', s) if ent[0] is None else ent[0]
+                    new = (y, o == 'Gt', s)
+                    if ent[0] is None:
+                        ent[0] = new
+                    elif y[0] == 'const' and isinstance(y[2], int) and ent[0][0][0] == 'const' and isinstance(ent[0][0][2], int):
+                        if y[2] + (1 if o == 'Gt' else 0) > ent[0][0][2] + (1 if ent[0][1] else 0):
+                            ent[0] = new
         return out
 
     # -- evaluation
@@ -342,6 +354,21 @@ class Intervals:
             return Ival(0, READ_RANGES[ln])
         if any(name.endswith(x) for x in LEN_CALLS):
             return Ival(0, 0, True)
+        if ln == 'default' and not args and len(e) > 3 and e[3]:
+            c = callee_of(e[3])
+            if c and (c.get('self_ty') or '') in TYMAX:
+                return Ival(0, 0)
+        if ln == 'next' and len(args) == 1:
+            # the item of an integer range iterator: `for i in a..b`
+            it = args[0]
+            while it[0] in ('ref', 'deref') or (it[0] == 'call' and it[1].split('::')[-1] in ('into_iter', 'rev') and it[2]):
+                it = it[1] if it[0] in ('ref', 'deref') else it[2][0]
+            if it[0] == 'agg' and str(it[1]).endswith('Range::Range') and len(it[2]) == 2:
+                a, b = ev(it[2][0]), ev(it[2][1])
+                return Ival(a.lo, b.hi - 1 if b.hi != INF else INF)
+            if it[0] == 'call' and it[1].endswith('RangeInclusive::new') and len(it[2]) == 2:
+                a, b = ev(it[2][0]), ev(it[2][1])
+                return Ival(a.lo, b.hi)
         if ln in ('min',) and len(args) == 2:
             a, b = ev(args[0]), ev(args[1])
             hi = min(a.hi, b.hi)
@@ -495,11 +522,22 @@ class Intervals:
                 else:
                     key = ('D', fn.path, l, d)
                     if key in seen:
-                        return tr   # loop-carried value: not analysed
+                        # loop-carried value: the only thing known is what the branch edges between that definition
+                        # and this read say about it (e.g. the loop is re-entered only while `l < C`)
+                        eb = self._edge_bound(fn, l, d, block, prov)
+                        if eb is None:
+                            return tr
+                        iv = Ival(max(tr.lo, eb[0]) if eb[0] is not None else tr.lo, min(tr.hi, eb[1]) if eb[1] is not None else tr.hi)
+                        out = iv if out is None else Ival(min(out.lo, iv.lo), max(out.hi, iv.hi), out.prop or iv.prop)
+                        continue
                     de = prov.def_expr_at(l, d[0], d[1])
                     if de is None:
                         return tr
                     sd = _strip(de)
+                    if sd[0] == 'bin' and sd[1] == 'BitAnd' and any(x[0] == 'local' and x[1] == l for x in (sd[2], sd[3])):
+                        # `l = l & y` never raises l: the other definitions bound it
+                        decreasing = True
+                        continue
                     if sd[0] == 'bin' and sd[1] == 'Sub' and sd[2][0] == 'local' and sd[2][1] == l and \
                             not any(x[0] == 'local' and x[1] == l for x in expr_walk(sd[3])):
                         # `l = l - y` with y >= 0 (possibly loop-carried) keeps the upper bound
@@ -510,6 +548,11 @@ class Intervals:
                             continue
                         return tr
                     iv = self.eval(fn, d[0], de, depth, None, seen | {key})
+                    if fn.in_loop(d[0]):
+                        eb = self._edge_bound(fn, l, d, block, prov)
+                        if eb is not None:
+                            iv = Ival(max(iv.lo, eb[0]) if eb[0] is not None else iv.lo,
+                                      min(iv.hi, eb[1]) if eb[1] is not None else iv.hi, iv.prop)
                 out = iv if out is None else Ival(min(out.lo, iv.lo), max(out.hi, iv.hi), out.prop or iv.prop)
             if out is None:
                 return tr
@@ -539,6 +582,72 @@ class Intervals:
         if decreasing:
             out = Ival(tr.lo, out.hi, out.prop)
         return Ival(max(out.lo, tr.lo) if tr.lo != -INF else out.lo, min(out.hi, tr.hi), out.prop)
+
+    def _edge_bound(self, fn, l, d, use_block, prov):
+        """(lo, hi) implied for local l (as defined at d = (block, stmt)) by the bool branch edges that every path
+        from that definition to `use_block` has to take, or None."""
+        from .core import switch_edges
+        dblock = d[0]
+        ck = ('EB', fn.path, l, d, use_block)
+        cache = self.__dict__.setdefault('_ebcache', {})
+        if ck in cache:
+            return cache[ck]
+        cache[ck] = None
+
+        def reach(avoid):
+            seenb = set()
+            st = [nb for nb in fn.succs(dblock) if (dblock, nb) != avoid]
+            while st:
+                b = st.pop()
+                if b in seenb:
+                    continue
+                seenb.add(b)
+                if b == use_block:
+                    return True
+                for nb in fn.succs(b):
+                    if (b, nb) != avoid:
+                        st.append(nb)
+            return False
+        if not reach(None):
+            return None
+        lo = hi = None
+        for s in fn.reachable:
+            e = switch_edges(fn, s)
+            if e is None or e[0] == e[1]:
+                continue
+            need_t = not reach((s, e[1]))
+            need_f = not reach((s, e[0]))
+            if need_t == need_f:
+                continue
+            cond = prov.operand(fn.blocks[s]['term']['discr'], 0, '%d:T' % s)
+            nc = norm_cmp(cond, need_t) if cond[0] in ('bin', 'un') else None
+            if not nc:
+                continue
+            op, a, b = nc
+            for x, y, o in ((a, b, op), (b, a, {'Lt': 'Gt', 'Le': 'Ge', 'Eq': 'Eq', 'Ne': 'Ne'}[op])):
+                sx = x
+                while sx[0] == 'cast':
+                    sx = sx[2]
+                if not (sx[0] == 'local' and sx[1] == l and y[0] == 'const' and isinstance(y[2], int)):
+                    continue
+                pos = sx[3] if len(sx) > 3 else None
+                if pos is None or set(fn.reaching_defs(l, pos)) != {d}:
+                    continue
+                c = y[2]
+                if o == 'Lt':
+                    hi = c - 1 if hi is None else min(hi, c - 1)
+                elif o == 'Le':
+                    hi = c if hi is None else min(hi, c)
+                elif o == 'Gt':
+                    lo = c + 1 if lo is None else max(lo, c + 1)
+                elif o == 'Ge':
+                    lo = c if lo is None else max(lo, c)
+                elif o == 'Eq':
+                    lo = hi = c
+        if lo is None and hi is None:
+            return None
+        cache[ck] = (lo, hi)
+        return (lo, hi)
 
     def _field(self, fn, block, e, depth, seen):
         """Field of a struct: join over every writer of that field in the crate."""
